@@ -331,12 +331,16 @@ impl<S: BuildHasher + Clone + 'static> SampledLFU<S> {
     /// Update the max_cost
     #[inline]
     pub fn update_max_cost(&self, mc: i64) {
+        #[cfg(transparencies_stretto_verif)]
+        crate::verif::capacity_access();
         self.max_cost.store(mc, Ordering::SeqCst);
     }
 
     /// get the max_cost
     #[inline]
     pub fn get_max_cost(&self) -> i64 {
+        #[cfg(transparencies_stretto_verif)]
+        crate::verif::capacity_access();
         self.max_cost.load(Ordering::SeqCst)
     }
 
